@@ -8,5 +8,6 @@ CONSTANTS Depth = 2
           FullFirst = FALSE
           Starts = {"two"}
           MaxRow = 3
-          TwoCols = TRUE
+          TwoCols = 2
 INVARIANT TypeOK
+INVARIANT SpecSane
